@@ -20,12 +20,13 @@ const yamlPkg = "gopkg.in/yaml.v3"
 type yamlSide struct {
 	nodes map[*Value]*yaml.Node // engine *yaml.Node cell -> native node
 	docs  map[*Value]*ydoc      // first byte cell of a marshalled document -> tree
+	trees map[*Value]*ynode     // engine *yaml.Node cell handed to an UnmarshalYAML -> its (symbolic) subtree
 }
 
 func (e *Engine) yside() *yamlSide {
 	s, _ := e.hostState["yaml"].(*yamlSide)
 	if s == nil {
-		s = &yamlSide{nodes: map[*Value]*yaml.Node{}, docs: map[*Value]*ydoc{}}
+		s = &yamlSide{nodes: map[*Value]*yaml.Node{}, docs: map[*Value]*ydoc{}, trees: map[*Value]*ynode{}}
 		e.hostState["yaml"] = s
 	}
 	return s
@@ -409,6 +410,13 @@ func registerYAML(e *Engine) {
 		out := args[1].(iface)
 		dst := out.v.(*Value)
 		t := deref(out.t)
+		if yn, ok := e.yside().trees[np]; ok {
+			// a subtree with symbolic leaves handed to an UnmarshalYAML method: decode it from
+			// the tree (typically into an alias of the method's own type)
+			var errs []string
+			er := e.ydecodeTree(yn, t, dst, &errs)
+			return e.finishDecode(er, errs)
+		}
 		n, symv := e.nativeNode(np)
 		if n == nil {
 			// scalar node with a symbolic value
